@@ -61,7 +61,8 @@ func (m *metadataStoreIndex) UpdateIndex(log ipfslog.Log, _ []ipfslog.Entry) err
 	m.lock.Lock()
 	defer m.lock.Unlock()
 
-	entries := log.GetEntries().Slice()
+	// log order (deterministic for a given set of entries), not the order in which the entries happened to arrive
+	entries := log.Values().Slice()
 
 	// Resetting state
 	m.contacts = map[string]*AccountContact{}
